@@ -12,10 +12,13 @@ Exit codes: 0 held on everything observed, 1 violation (VIOLATION line printed),
 import json, os, subprocess, sys, time, struct, signal, hashlib, shutil, fnmatch, re
 
 VERIF = os.path.dirname(os.path.dirname(os.path.abspath(__file__)))
-HARNESS = os.path.join(VERIF, "harness")
-WORK = os.path.join(VERIF, "work")
-EVID = os.path.join(VERIF, "evidence")
-REPLAYS = os.path.join(VERIF, "replays")
+# (the environment overrides are used by driver/selftest.py only: it runs the checks against a
+# scratch copy of the harness that depends on a scratch worktree of /repo, and must not touch the
+# real work / evidence / replay directories)
+HARNESS = os.environ.get("VERIF_HARNESS_DIR") or os.path.join(VERIF, "harness")
+WORK = os.environ.get("VERIF_WORK_DIR") or os.path.join(VERIF, "work")
+EVID = os.environ.get("VERIF_EVIDENCE_DIR") or os.path.join(VERIF, "evidence")
+REPLAYS = os.environ.get("VERIF_REPLAYS_DIR") or os.path.join(VERIF, "replays")
 KNOWN = os.path.join(VERIF, "known_findings.json")
 NSHARDS = int(os.environ.get("VERIF_SHARDS", "16"))
 
